@@ -165,7 +165,16 @@ class StmtMixin:
                 self.annotations[node.target.id] = node.annotation
             yield ("next",), st
             return
-        for v, s in self.ev(node.value, st):
+        self._ann_hint = None
+        if isinstance(node.value, ast.List):
+            try:
+                txt = ast.unparse(node.annotation).replace("typing.", "").replace("'", "").replace('"', "")
+                self._ann_hint = self.parse_sort(txt.replace("List[", "list[").replace("Tuple[", "tuple["))
+            except Unsupported:
+                self._ann_hint = None
+        outs = list(self.ev(node.value, st))
+        self._ann_hint = None
+        for v, s in outs:
             if isinstance(v, Exc):
                 yield ("raise", v), s
                 continue
@@ -619,6 +628,14 @@ class StmtMixin:
             kk = z3.Int(fresh_name(idx_name))
             head.assume(z3.And(0 <= kk, kk <= it.length))
             head.env[idx_name] = V(INT, self.from_mathint(kk))
+        import re as _re
+        for inv in sp.invariant:
+            m_ = _re.fullmatch(r"tail_alias\((\w+),\s*(\w+)\)", inv.strip())
+            if m_:
+                # aliasing invariant (proved at entry and at every back edge): re-establish the alias on the havocked heap
+                fv_, xs_ = head.env.get(m_.group(1)), head.env.get(m_.group(2))
+                if isinstance(fv_, VFunc) and fv_.kind == "tailappend" and isinstance(xs_, VRef) and head.heap.get(fv_.obj.ref) == ("havocked",):
+                    head.heap[fv_.obj.ref] = ("tailalias", xs_.ref, head.heap[xs_.ref])
         for inv in sp.invariant:
             head.assume(self.spec_bool(inv, {}, head))
         # ---- exit path(s) and body path(s)
@@ -702,6 +719,11 @@ class StmtMixin:
                         fv = st.env.get(rename.get(f.id, f.id))
                         if isinstance(fv, VFunc) and fv.kind == "bound" and fv.name in MUTATORS and isinstance(fv.obj, VRef):
                             mods.add(("ref", fv.obj.ref))
+                        elif isinstance(fv, VFunc) and fv.kind == "tailappend":
+                            cell = st.heap.get(fv.obj.ref)
+                            if isinstance(cell, tuple) and cell[0] == "tailalias":
+                                mods.add(("ref", cell[1]))
+                            mods.add(("name", rename.get(f.id, f.id)))
                         elif isinstance(fv, VFunc) and fv.kind == "local" and depth < 3:
                             fn = fv.data[0]
                             self._mods_block(fn.body, st, mods, {}, depth + 1)
@@ -763,6 +785,13 @@ class StmtMixin:
                     c0 = self.deref(cur, st)
                     if isinstance(cur, VFunc):
                         if cur.kind in ("local",):
+                            continue
+                        if cur.kind == "tailappend":
+                            # re-bound inside the loop: unusable until an invariant tail_alias(f, xs) re-establishes it
+                            from .state import new_ref
+                            ar = new_ref()
+                            st.heap[ar] = ("havocked",)
+                            st.env[what] = VFunc("tailappend", "append", obj=VRef(ar))
                             continue
                         raise Unsupported(f"loop re-binds function-valued name {what!r}")
                     if isinstance(cur, VRef):
